@@ -124,7 +124,7 @@ func (m *Model) rootsInit() {
 						}
 					case ssa.CallInstruction:
 						c := in.Common()
-						cal := c.StaticCallee()
+						cal := Unthunk(c.StaticCallee())
 						if cal == nil {
 							if BuiltinName(c) == "copy" && m.IsWordSlice(c.Args[0].Type()) {
 								if ri.elemW[fn].add(m.RootsOf(c.Args[0])) {
@@ -183,6 +183,7 @@ func (m *Model) mapLabel(lab string, c *ssa.CallCommon, seen map[ssa.Value]bool)
 		}
 		if r.Fresh {
 			out["new.mant"] = true
+			out.add(m.sharedMant(r))
 		}
 		for _, g := range r.Globals {
 			out["global:"+g.Name()+".mant"] = true
@@ -193,6 +194,42 @@ func (m *Model) mapLabel(lab string, c *ssa.CallCommon, seen map[ssa.Value]bool)
 		return out
 	}
 	out.add(m.rootsOf(a, seen))
+	return out
+}
+
+// sharedMant: a local Decimal that was given the whole value of another one (tmp := *x) shares
+// that one's mantissa array: the mantissa roots of the Decimals whose value was stored into the
+// fresh allocations of r.
+func (m *Model) sharedMant(r Ref) RootSet {
+	out := RootSet{}
+	for _, al := range r.Allocs {
+		a, ok := al.(*ssa.Alloc)
+		if !ok || a.Referrers() == nil {
+			continue
+		}
+		for _, u := range *a.Referrers() {
+			st, ok := u.(*ssa.Store)
+			if !ok || st.Addr != ssa.Value(a) {
+				continue
+			}
+			ld, ok := st.Val.(*ssa.UnOp)
+			if !ok || ld.Op != token.MUL || !m.IsDecPtr(ld.X.Type()) {
+				continue
+			}
+			src := m.RefOf(ld.X)
+			for i := 0; i < 32; i++ {
+				if src.MayBeParam(i) {
+					out[fmt.Sprintf("P%d.mant", i)] = true
+				}
+			}
+			for _, g := range src.Globals {
+				out["global:"+g.Name()+".mant"] = true
+			}
+			if src.Unknown {
+				out["?"] = true
+			}
+		}
+	}
 	return out
 }
 
@@ -252,6 +289,7 @@ func (m *Model) rootsOf(v ssa.Value, seen map[ssa.Value]bool) RootSet {
 				}
 				if r.Fresh {
 					out["new.mant"] = true
+					out.add(m.sharedMant(r))
 				}
 				for _, g := range r.Globals {
 					out["global:"+g.Name()+".mant"] = true
@@ -309,7 +347,7 @@ func (m *Model) isPoolPtr(p ssa.Value, seen map[ssa.Value]bool) bool {
 	seen[p] = true
 	switch x := p.(type) {
 	case *ssa.Call:
-		cal := x.Call.StaticCallee()
+		cal := Unthunk(x.Call.StaticCallee())
 		return cal != nil && m.InDecimalPkg(cal) && cal.Name() == "getDec"
 	case *ssa.Parameter:
 		return m.isDecPtrPtr(x)
@@ -356,7 +394,7 @@ func (m *Model) isDecPtrPtr(v ssa.Value) bool {
 
 func (m *Model) callRoots(call *ssa.Call, idx int, seen map[ssa.Value]bool) RootSet {
 	out := RootSet{}
-	cal := call.Call.StaticCallee()
+	cal := Unthunk(call.Call.StaticCallee())
 	if cal == nil {
 		switch BuiltinName(&call.Call) {
 		case "append":
